@@ -16,7 +16,7 @@ from vf.xmodel import Schema, Rop, build_api, build_loader
 SHARDS = {'quick': 16, 'thorough': 32}
 TIMEOUT = {'quick': 900, 'thorough': 3600}
 MUST_HIT = ['ClassName.navigation-spellings', 'Cell.where_eq-two-spellings-in-one-filter', 'Cell.where_eq-identifier-twin', 'Cell.two-classes', 'Cell.read-all-spellings', 'Cell.serialize', 'Cell.where_eq',
-            'Referential.write-rejected', 'Referential.ctor-keyword', 'Referential.loaded-instance', 'ClassName.spellings',
+            'Referential.write-rejected', 'Referential.ctor-keyword', 'Referential.ctor-two-spellings', 'Ctor.two-spellings-in-one-call', 'Referential.loaded-instance', 'ClassName.spellings',
             'Cell.referred-identifier-written', 'ClassName.whole-model-after-spellings', 'Cell.where_eq-after-delete']
 MUST_REACH = ['xtuml/meta.py:Class.__getattr__', 'xtuml/meta.py:Class.__setattr__',
               'xtuml/meta.py:Class.__delattr__', 'xtuml/meta.py:MetaModel.find_metaclass',
@@ -170,6 +170,15 @@ def run_attr_history(ctx, route, declared, ty, hist, sps):
             inst = m.new('Thng', **{sp: v, 'Keep': keep, declared + 'x': 'LONGER'})
             cell = v
             continue
+        if op == 'ctor2':
+            # one constructor call naming the attribute twice, under two spellings: two writes to one cell
+            v1, v2 = fresh(), fresh()
+            inst = m.new('Thng', **{sp[0]: v1, 'Keep': keep, sp[1]: v2, declared + 'x': 'LONGER'})
+            ctx.hit('Ctor.two-spellings-in-one-call')
+            cell = getattr(inst, declared)
+            if cell not in (v1, v2):
+                raise Mismatch('ctor-keyword/two-spellings', 'new(Thng, %s=%r, %s=%r) stored %r' % (sp[0], v1, sp[1], v2, cell))
+            continue
         if inst is None:
             inst = m.new('Thng', **{'Keep': keep, declared + 'x': 'LONGER'})
             cell = 0 if ty == 'INTEGER' else ''
@@ -222,6 +231,22 @@ def referential_checks(ctx, route, sps_ref):
             if getattr(t, sp2) != o2.Id:
                 raise Mismatch('read/referential-spelling', 'Thng.%s reads %r, partner id %r'
                                % (sp2, getattr(t, sp2), o2.Id))
+        # the referential keyword twice in one call, under two spellings: one cell, one partner
+        for spb in sps_ref:
+            if spb == sp:
+                continue
+            ctx.hit('Referential.ctor-two-spellings')
+            try:
+                t2 = m.new('Thng', **{sp: o1.Id, spb: o2.Id})
+            except xtuml.MetaException as e:
+                raise Mismatch('ctor-keyword/referential-two-spellings', 'new(Thng, %s=<id>, %s=<id>) raised %s: %s'
+                               % (sp, spb, type(e).__name__, e))
+            partner = xtuml.navigate_one(t2).Othr[1]()
+            vals = set(getattr(t2, s_) for s_ in sps_ref)
+            if partner not in (o1, o2) or vals != set([partner.Id]):
+                raise Mismatch('ctor-keyword/referential-two-spellings', 'new(Thng, %s=<id of o1>, %s=<id of o2>): partner %r, '
+                               'the spellings read %r' % (sp, spb, partner, vals))
+            xtuml.delete(t2)
         # direct writes are rejected under every spelling and change nothing
         ctx.hit('Referential.write-rejected')
         try:
@@ -590,6 +615,11 @@ def run(ctx):
             for hist in itertools.chain(itertools.product(reads, w_), itertools.product(w_, reads, w_),
                                         itertools.product(w_, reads, d_), itertools.product(ctor, reads, w_)):
                 jobs.append((declared, ty, hist))
+            ctor2 = [('ctor2', (a, b)) for a in sps for b in sps if a != b]
+            for first in ctor2:
+                jobs.append((declared, ty, (first,)))
+                for o in ops:
+                    jobs.append((declared, ty, (first, o)))
         else:
             w = [('write', sp) for sp in sps]
             d = [('delete', sp) for sp in sps]
@@ -597,6 +627,10 @@ def run(ctx):
                 jobs.append((declared, ty, hist))
             for hist in itertools.product(ctor, w, w):
                 jobs.append((declared, ty, hist))
+            for a in sps:
+                for b in sps:
+                    if a != b:
+                        jobs.append((declared, ty, (('ctor2', (a, b)),)))
             for hist in itertools.product(w, d, w):
                 jobs.append((declared, ty, hist))
             for hist in itertools.product(w, d, d):
